@@ -7,8 +7,11 @@ from vf.gen import pick_weighted
 from props import b16dag as D
 
 ID = "C47"
-THEOREMS = ["C47_scan_total"]
+THEOREMS = ["C47_eq_git_partial", "C47_git_regex_walk", "C47_short_prefix_refuted", "C47_ambiguous_refuted",
+            "C47_hexlike_refname_refuted", "C47_regex_type_word_refuted", "C47_token_after_empty_braces_refuted",
+            "C47_regex_walk_order_refuted"]
 MODEL_FILES = ["CommitWalk.v", "Revision.v"]
+SPEC_NOTE = "Spec/GitRev.v"
 MODELLED = ("internal/revision scanner.go + parser.go on ASCII input for <ref>(~[n]|^[n]|^{type}|^{}|^{/re})* and '@' "
             "(Parse, parseRef/checkRefFormat, parseTilde, parseCaret, parseCaretBraces, validateFullRevision), repository.go "
             "ResolveRevision, resolveHashPrefix, expandRef over RefRevParseRules, expandPartialHash in the ascending order of "
@@ -141,6 +144,11 @@ def build_repo(rng, tier):
             addref("refs/" + rng.choice(["stash", "x/y"]), hash=c)
         else:
             addref(rng.choice(["FETCH_HEAD", "ORIG_HEAD"]), hash=c)
+    # the same short name under several rev-parse rules, pointing at different commits
+    for nm in rng.sample(["dev", "v1", "x"], rng.choice([0, 1, 1, 2])):
+        spaces = rng.sample(["refs/tags/", "refs/heads/", "refs/remotes/", "refs/"], rng.choice([2, 2, 3]))
+        for sp in spaces:
+            addref(sp + nm, hash=rng.choice(ids))
     objects.sort(key=lambda o: o["id"])
     return {"par": par, "times": times, "msgs": [m.hex() for m in msgs], "objects": objects, "refs": refs,
             "bucket": "resolve/%s/%s%s" % (sh, st, "/collide" if collide else "")}, ids, tags, blobs
@@ -198,8 +206,24 @@ class Resolve(Suite):
             repo, ids, tags, blobs = build_repo(rng, tier)
             names = base_names(rng, repo, ids, tags, blobs)
             exprs = []
+            # aimed expressions: second parents of merges, colliding names, peeled tags, first-parent chains
+            aimed = []
+            for i, ps in enumerate(repo["par"]):
+                if len(ps) >= 2:
+                    aimed += [ids[i][:10] + "^2", ids[i][:12] + "^2~1", ids[i] + "^1", ids[i][:9] + "^2^{commit}"]
+                if len(ps) >= 1:
+                    aimed += [ids[i][:11] + "~1", ids[i][:8] + "~2", ids[i][:10] + "^"]
+            for r in repo["refs"]:
+                short = r["name"].split("/")[-1]
+                if sum(1 for q in repo["refs"] if q["name"].split("/")[-1] == short) > 1:
+                    aimed += [short, short + "^{}", "heads/" + short, "tags/" + short]
+            for t in tags.values():
+                aimed += [t[:10] + "^{}", t[:10] + "~1", t]
             for _ in range(self.NEXPR):
-                e = rng.choice(names).encode() + suffixes(rng)
+                if aimed and rng.random() < 0.4:
+                    e = rng.choice(aimed).encode() + (suffixes(rng) if rng.random() < 0.3 else b"")
+                else:
+                    e = rng.choice(names).encode() + suffixes(rng)
                 exprs.append(e.hex())
             repo.update(op="resolve", exprs=exprs)
             cases.append(repo)
@@ -311,6 +335,13 @@ class Resolve(Suite):
                 else:
                     self.stats["both_fail"] += 1
         self.diagnose(ctx, cases)
+        for c in cases:
+            fs = c.get("_failing", [])
+            un = [f for f in fs if self.expr_class(c, f) is None]
+            if un:
+                e, h, want = un[0][:3]
+                fails[c["id"]] = "%r: go-git resolves to %s, git rev-parse '<rev>^{commit}': %s" % (
+                    bytes.fromhex(e).decode("latin1"), h[:10], want if len(want) != 40 else want[:10])
         return fails
 
     ITEM = _re.compile(rb"~[0-9]*|\^\{[^}]*\}|\^[0-9]*")
@@ -387,8 +418,44 @@ class Resolve(Suite):
             return classes[0]
         return None
 
+    def repo_expr(self, c):
+        objs = []
+        for o in c["objects"]:
+            if o["type"] == "commit":
+                kind = "kc %d" % o["node"]
+            elif o["type"] == "tag":
+                kind = 'kt "%s"' % o["target"]
+            else:
+                kind = "KOther"
+            objs.append('("%s", %s)' % (o["id"], kind))
+        refs = ['("%s", %s)' % (r["name"], ('rs "%s"' % r["sym"]) if r.get("sym") else ('rh "%s"' % r["hash"])) for r in c["refs"]]
+        return "(mk_repo %s [%s] [%s] [%s])" % (D.coq_dag(c["par"], c["times"]), "; ".join('"%s"' % m for m in c["msgs"]),
+                                                 "; ".join(objs), "; ".join(refs))
+
     def extra(self, ctx, cases, impl, model):
-        return dict(getattr(self, "stats", {}))
+        """C-git: S (Spec/GitRev.v git_items, on go-git's parse of the expression) vs the git binary, on every expression
+        whose go-git parse is the grammar's (i.e. outside the two parser defects)"""
+        st = dict(getattr(self, "stats", {}))
+        todo = [c for c in cases if self.model_expr(c) is not None and c["id"] in getattr(self, "_git", {})][:40]
+        exprs = ["c47_git %s [%s]" % (self.repo_expr(c), "; ".join('"%s"' % e for e in c["exprs"])) for c in todo]
+        outs = ctx.coq_eval("From GoGit Require Import Spec.Dag Model.CommitWalk Model.Revision Spec.GitRev.", exprs)
+        n = bad = 0
+        for c, o in zip(todo, outs):
+            if not o:
+                continue
+            node_id = {ob["node"]: ob["id"] for ob in c["objects"] if ob["type"] == "commit"}
+            for e, sres, g in zip(c["exprs"], self.results(o), self._git[c["id"]]):
+                x = bytes.fromhex(e)
+                if g is None or sres.startswith("err unparsed") or TYPEWORD.search(x) or _re.search(rb"\^\{\}.", x) or b"^{tag}" in x:
+                    continue
+                n += 1
+                want = node_id[int(sres[3:])] if sres.startswith("ok ") else "none"
+                got = g if len(g) == 40 else "none"
+                if want != got:
+                    bad += 1
+                    ctx.notes.append("spec_mismatch Spec/GitRev vs git on %r: S %s, git %s" % (x, want[:10], got[:10]))
+        st.update(spec_vs_git_exprs=n, spec_mismatches=bad)
+        return st
 
     def show(self, c):
         return {k: v for k, v in c.items() if k != "_failing"}
